@@ -71,6 +71,16 @@ def families(tier, rng):
                       ["gate", 2, op, 1], ["send", 2, verb]] + ([["dsend", 2, data]] if data else []) + [end, ["iter", a], ["nq", ["srvclose"]], ["iter", 2],
                       ["release", 2], ["tick", 0]]
                 fam.append(("closerace", st))
+    # a client that has stopped reading its control connection (the reply writer blocks, replies queue up) and then goes away
+    for hw in (4, 40):
+        for cmds in (["PWD"], ["PWD", "SYST"], ["SYST", "PWD"]):
+            for end in (["vanish", 2], ["vanish", 2, "reset"]):
+                for a in (0, 2, 5):
+                    st = [["connect", 1], ["connect", 2], ["send", 2, "USER u1"], ["send", 2, "PASS pw1"], ["holdctl", 2, hw]]
+                    for c in cmds:
+                        st += [["nq", ["send", 2, c]], ["iter", 6]]
+                    st += [["iter", a], ["nq", end], ["tick", 0], ["connect", 3], ["send", 3, "USER u1"], ["send", 3, "PASS pw1"], ["connect", 4], ["srvclose"]]
+                    fam.append(("backlog", st))
     return fam
 
 
